@@ -41,7 +41,7 @@ ASSUMPTIONS = [
 
 
 def GATES(tier):
-    return [("copies_judged", 300), ("identity_graphs_compared", 300), ("followup_mutations", 500), ("dnc_attrs_checked", 10), ("kind:deepcopy", 10), ("dnc_with_subclass_cases", 5), ("dnc_inherited_attr_cases", 3)] + [
+    return [("copies_judged", 300), ("identity_graphs_compared", 300), ("followup_mutations", 500), ("dnc_attrs_checked", 10), ("kind:deepcopy", 10), ("dnc_with_subclass_cases", 5), ("dnc_inherited_attr_cases", 3), ("noargs_forms", 20), ("shallow_transforms", 10)] + [
         (f"kind:{hk}", 5) for hk in dr.HELPER_KINDS
     ]
 
@@ -146,6 +146,27 @@ def run(ctx, params):
                 else:
                     op = dr.gen_helper(world, rng, insts, target, validity="valid", inplace=False)
                     op["kwargs"].pop("_if", None)
+                    present = [n for n in world.decl.attrs_of(cname) if n in R.__dict__]
+                    r_ = rng.random()
+                    if r_ < 0.08 and present:
+                        # the no-argument forms: nothing to apply, still a copy that shares nothing
+                        n = rng.choice(present)
+                        verb = rng.choice(["update", "transform"])
+                        op = {"kind": "helper", "target": target, "name": f"{verb}_{n}", "args": [], "kwargs": {}, "hkind": f"{verb}_attr", "form": "noargs", "attr": n, "validity": "valid", "inplace": False}
+                        ctx.count("noargs_forms")
+                    elif r_ < 0.3:
+                        # a transform that returns a *new* object holding the old elements / nested values
+                        swapped = False
+                        for i, a_ in enumerate(op["args"]):
+                            if isinstance(a_, list) and a_ and a_[0] == "fn" and a_[1] in ("ident_copy", "listcopy", "dictcopy", "rev", "same"):
+                                op["args"][i] = ["fn", "shallow"]
+                                swapped = True
+                        for k_, a_ in list(op["kwargs"].items()):
+                            if isinstance(a_, list) and a_ and a_[0] == "fn" and a_[1] in ("ident_copy", "listcopy", "dictcopy", "rev", "same"):
+                                op["kwargs"][k_] = ["fn", "shallow"]
+                                swapped = True
+                        if swapped:
+                            ctx.count("shallow_transforms")
                 step = dr.execute(world, insts, op, scopes=(), saturate=True)
                 X = step.value
                 if step.outcome == "returned" and X is R:
